@@ -28,3 +28,19 @@ run neon-skew-index engine/engine_neon.rs "let log_m = self.skew[dist + skew_del
 run neon-detect engine/engine_default.rs 'if std::arch::is_aarch64_feature_detected!("neon") {
             return Neon::eval_poly' 'if true {
             return Neon::eval_poly' C14
+# C14 provenance (R23, `ran_as` / `eval_dispatched`)
+run evalpoly-order engine/engine_default.rs 'if is_x86_feature_detected!("avx2") {
+                return Avx2::eval_poly(erasures, truncated_size);
+            }' 'if is_x86_feature_detected!("ssse3") {
+                return Ssse3::eval_poly(erasures, truncated_size);
+            }
+            if is_x86_feature_detected!("avx2") {
+                return Avx2::eval_poly(erasures, truncated_size);
+            }' C14
+run evalpoly-ssse3-compiled-for-avx2 engine/engine_ssse3.rs '#[target_feature(enable = "ssse3")]
+    unsafe fn eval_poly_ssse3' '#[target_feature(enable = "avx2")]
+    unsafe fn eval_poly_ssse3' C14
+run lowrate-decoder-portable-evalpoly rate/rate_low.rs 'E::eval_poly(&mut erasures, GF_ORDER);' 'crate::engine::NoSimd::eval_poly(&mut erasures, GF_ORDER);' C14
+run ssse3-engine-calls-avx2-kernel engine/engine_ssse3.rs 'fn eval_poly(erasures: &mut [GfElement; GF_ORDER], truncated_size: usize) {
+        unsafe { Self::eval_poly_ssse3(erasures, truncated_size) }' 'fn eval_poly(erasures: &mut [GfElement; GF_ORDER], truncated_size: usize) {
+        crate::engine::Avx2::eval_poly(erasures, truncated_size)' C14
